@@ -13,7 +13,8 @@ CONSTANTS KeyLen,      \* keys are all bit strings of length <= KeyLen
           Vals,        \* values
           Acts,        \* alphabet: set of action names
           MaxCount,    \* state constraint: at most this many entries
-          EmitRows     \* print one JSON row per transition
+          EmitActs,    \* print one JSON row per transition whose action is in this set
+          ViewAcct     \* TRUE: states differing in arena length / free-list size are distinct
 
 VARIABLES m, abs, ev, ret, pan, aret, hist, canon
 vars == <<m, abs, ev, ret, pan, aret, hist, canon>>
@@ -51,7 +52,7 @@ Next == \E e \in AllEvents :
 
 Spec == Init /\ [][Next]_vars
 
-View == <<Tree(m), Len(m.a), Len(m.f), m.c, canon>>
+View == IF ViewAcct THEN <<Tree(m), Len(m.a), Len(m.f), m.c, canon>> ELSE <<Tree(m), m.c, canon>>
 Bound == Cardinality(abs) <= MaxCount
 
 (* ---- state invariants ---------------------------------------------------- *)
@@ -75,8 +76,13 @@ PropGrow  == [][StepGrowOK]_vars
 PropShape == [][StepShapeOK]_vars
 
 (* ---- emission ------------------------------------------------------------- *)
-Row == [h |-> hist, e |-> ev', r |-> ret', pn |-> pan',
-        t |-> Tree(m'), x |-> <<Len(m'.a), Len(m'.f), m'.c>>,
-        f |-> Tree(m), fx |-> <<Len(m.a), Len(m.f), m.c>>, cn |-> canon']
-Emit == EmitRows => PrintT(ToJson(Row))
+\* one row per distinct state (printed when the state is first found) ...
+StateRow == [s |-> hist, f |-> Tree(m), fx |-> <<Len(m.a), Len(m.f), m.c>>, cn |-> canon]
+EmitState == EmitActs # {} => PrintT(ToJson(StateRow))
+\* ... and one row per generated transition whose action is selected
+Row == IF ev'.a \in Observers
+       THEN [h |-> hist, e |-> ev', r |-> ret', pn |-> pan']
+       ELSE [h |-> hist, e |-> ev', r |-> ret', pn |-> pan',
+             t |-> Tree(m'), x |-> <<Len(m'.a), Len(m'.f), m'.c>>]
+Emit == ev'.a \in EmitActs => PrintT(ToJson(Row))
 =============================================================================
